@@ -14,10 +14,13 @@ def subscribed(S, c, M):
 
 
 def GH5(S):
-    """a Mailbox object's listener set is exactly the alive, listening connections holding it"""
+    """a Mailbox object's listener set is exactly the alive, listening connections holding it
+    (two implications, each with a trigger the solver meets naturally)"""
     ls = S.heap["Mailbox._listeners"]
-    return FA([INT, INT], lambda M, c: Implies(M != 0, ls[M][c] == subscribed(S, c, M)),
-              pats=lambda M, c: [ls[M][c]])
+    cm = conn(S, "_mailbox")
+    return And(
+        FA([INT, INT], lambda M, c: Implies(And(M != 0, ls[M][c]), subscribed(S, c, M)), pats=lambda M, c: [ls[M][c]]),
+        FA([INT], lambda c: Implies(subscribed(S, c, cm[c]), ls[cm[c]][c]), pats=lambda c: [cm[c]]))
 
 
 def holder_ok(S, c):
